@@ -48,7 +48,7 @@ def mapped(name, kt, n, eps=1, epsrec=1, ord_hi=None, tiers=Q, timeout=900, fram
     if frame: d.update(WITH_FRAME=1)
     if ord_hi is not None: d.update(ORD_HI=ord_hi)
     return dict(name=name, unit='mapped.cpp', harness='h_mapped.c', defs=d, narrow=16 if KT[kt]['KEY_BITS'] == 8 else 0, timeout=timeout, tiers=tiers,
-                cbmc_extra=['--no-array-field-sensitivity'],
+                cbmc_extra=['--no-array-field-sensitivity'], unwind_rules=[(r'^F_u_mapped\.', 100)] if frame else [],
                 bounds='exactly %d sorted %s keys%s, every duplicate structure, every query except the reserved value, Epsilon=%d, EpsilonRecursive=%d; '
                        'file/mmap layer replaced by a pointer to the array (accessor hook)' % (n, kt, '' if ord_hi is None else ' with ordinals 0..%d' % ord_hi, eps, epsrec))
 
